@@ -17,8 +17,10 @@ def case_(
     default_source_: Observable[_T] | AnyFuture[_T] = default_source or empty()
 
     def factory(_: abc.SchedulerBase) -> Observable[_T]:
+        # the mapper is user code: its own KeyError is a failure, not "no such case"
+        key = mapper()
         try:
-            result: Observable[_T] | AnyFuture[_T] = sources[mapper()]
+            result: Observable[_T] | AnyFuture[_T] = sources[key]
         except KeyError:
             result = default_source_
 
